@@ -3,6 +3,7 @@
 package main
 
 import (
+	"sort"
 	"fmt"
 	"strings"
 
@@ -189,10 +190,109 @@ func c09PoolMap(c *Ctx, depth int) c09Val {
 	return c09Val{"%{" + strings.Join(ss, ", ") + "}", "%{" + strings.Join(es, ";") + "}"}
 }
 
+// splitTop splits the inside of a printed map / object at its top-level ", " separators
+func splitTop(s string) []string {
+	out, depth, inStr, start := []string{}, 0, false, 0
+	for i := 0; i < len(s); i++ {
+		ch := s[i]
+		switch {
+		case inStr:
+			if ch == '"' {
+				inStr = false
+			}
+		case ch == '"':
+			inStr = true
+		case ch == '[' || ch == '{' || ch == '(':
+			depth++
+		case ch == ']' || ch == '}' || ch == ')':
+			depth--
+		case ch == ',' && depth == 0 && i+1 < len(s) && s[i+1] == ' ':
+			out = append(out, s[start:i])
+			start = i + 2
+		}
+	}
+	if start < len(s) {
+		out = append(out, s[start:])
+	}
+	return out
+}
+
+// keys for the printing probe: several print alike (floats equal to six decimals, an int and its float)
+var c09PrintKeys = []string{"0.3", "(0.1 + 0.2)", "0.0000001", "0.0000002", "1", "1.0", "1.0000001", "2.5", "'a", "\"b\"", "nil", "true", "false", "0", "0.0", "(0.0 * -1.0)",
+	"[1]", "[1, 2]", "{x: 1}", "[0.3]", "[(0.1 + 0.2)]", "-1", "12", "1.5", "1.4999999"}
+
+// c09PrintProbe (no model involved): `len`, `items` and the three printed forms of one map describe the same pairs:
+// the printed form, split at its top-level separators, is the multiset of `key: value` of `items`.
+func c09PrintProbe(c *Ctx) {
+	n := 2 + c.Rng.Intn(5)
+	parts := []string{}
+	for i := 0; i < n; i++ {
+		parts = append(parts, fmt.Sprintf("%s: %d", c09PrintKeys[c.Rng.Intn(len(c09PrintKeys))], 10+i))
+	}
+	lit := "%{" + strings.Join(parts, ", ") + "}"
+	if c.Rng.Intn(3) == 0 {
+		lit = "%{" + strings.Join(parts[:n/2], ", ") + ", **%{" + strings.Join(parts[n/2:], ", ") + "}}"
+	}
+	if !c.Mine() {
+		return
+	}
+	src := "m := " + lit + "\n[m.items, m.len, m.S, m.repr, m]"
+	o := c.It.Run(src, "")
+	rec := Rec{Src: src, Impl: o.Kind, NT: true, Tags: []string{"print-probe"}}
+	defer func() { c.Em.Emit(rec) }()
+	arr, ok := o.Obj.(*object.PanArr)
+	if o.Kind != "val" || !ok || len(arr.Elems) != 5 {
+		rec.Oracle = "print probe did not evaluate: " + o.Kind + " " + o.ErrMsg
+		return
+	}
+	items, ok1 := arr.Elems[0].(*object.PanArr)
+	ln, ok2 := arr.Elems[1].(*object.PanInt)
+	sS, ok3 := arr.Elems[2].(*object.PanStr)
+	sR, ok4 := arr.Elems[3].(*object.PanStr)
+	if !(ok1 && ok2 && ok3 && ok4) {
+		rec.Oracle = "print probe gave unexpected types: " + safeInspect(o.Obj)
+		return
+	}
+	wantI, wantR := []string{}, []string{}
+	for _, it := range items.Elems {
+		kv, ok := it.(*object.PanArr)
+		if !ok || len(kv.Elems) != 2 {
+			rec.Oracle = "items element is not a pair: " + safeInspect(it)
+			return
+		}
+		wantI = append(wantI, kv.Elems[0].Inspect()+": "+kv.Elems[1].Inspect())
+		wantR = append(wantR, kv.Elems[0].Repr()+": "+kv.Elems[1].Repr())
+	}
+	sort.Strings(wantI)
+	sort.Strings(wantR)
+	if int(ln.Value) != len(items.Elems) {
+		rec.Oracle = fmt.Sprintf("len %d but items has %d pairs", ln.Value, len(items.Elems))
+		return
+	}
+	for _, pr := range []struct {
+		name, got string
+		want      []string
+	}{{"S", sS.Value, wantI}, {"repr", sR.Value, wantR}, {"inspect", arr.Elems[4].Inspect(), wantI}} {
+		if !strings.HasPrefix(pr.got, "%{") || !strings.HasSuffix(pr.got, "}") {
+			rec.Oracle = pr.name + " is not a printed map: " + pr.got
+			return
+		}
+		got := splitTop(pr.got[2 : len(pr.got)-1])
+		sort.Strings(got)
+		if strings.Join(got, " | ") != strings.Join(pr.want, " | ") {
+			rec.Oracle = fmt.Sprintf("%s prints the pairs %q but items reports %q", pr.name, got, pr.want)
+			return
+		}
+	}
+}
+
 func genC09(c *Ctx) {
 	n := 500
 	if c.Thorough() {
 		n = 9000
+	}
+	for i := 0; i < n; i++ {
+		c09PrintProbe(c)
 	}
 	// Lean's sortNames puts public names (sorted) before private ones; the canonical object rendering on the Go side
 	// does the same through Keys / PrivateKeys. NOTE the driver renders objects with all names sorted bytewise:
